@@ -125,7 +125,7 @@ def load_known():
 def finish(ctx, module_doc=""):
     """Print report, write evidence, return exit code."""
     known = load_known()
-    evdir = os.path.join(VERIF, "evidence")
+    evdir = os.environ.get("CVA_EVIDENCE_DIR") or os.path.join(VERIF, "evidence")      # (the override is for the parallel self-test only)
     vdir = os.path.join(evdir, "violations")
     os.makedirs(vdir, exist_ok=True)
     for fn in os.listdir(vdir):
